@@ -106,6 +106,67 @@ NPQ_KERNELS = [
          until="rmse = np.sqrt(mean_squared_error)", returns="mean_squared_error"),
 ]
 
+# the index plumbing at the head of ExpandedScaffers_F6.f and F8F2.f: which columns are paired (an integer list, a function of D = x.shape[1])
+IDX_KERNELS = [
+    dict(name="Bench_Scaffer_indexes", file=B, cls="ExpandedScaffers_F6", func="f"),
+    dict(name="Bench_F8F2_indexes", file=B, cls="F8F2", func="f"),
+]
+
+
+def translate_pair_indexes(fn, cfg):
+    """first statement `if x.shape[1] == 2: indexes = <list> else: indexes = ...` followed (somewhere later) by `x_indexes = x[:, indexes]` and
+    `vertical_X = x_indexes.reshape(-1, 2)`; D >= 1 is assumed (`x.shape[1] - 1` is read as truncated subtraction)"""
+    body = [st for st in fn.body if not (isinstance(st, ast.Expr) and isinstance(st.value, ast.Constant))]
+    if len(body) < 3 or not isinstance(body[0], ast.If) or ast.unparse(body[0].test) != "x.shape[1] == 2":
+        raise NotRecognised("the dimension test")
+    if ast.unparse(body[1]) != "x_indexes = x[:, indexes]" or ast.unparse(body[2]) != "vertical_X = x_indexes.reshape(-1, 2)":
+        raise NotRecognised("the gather / pairing statements")
+
+    def nat(e):
+        src = ast.unparse(e)
+        if isinstance(e, ast.Constant) and isinstance(e.value, int) and not isinstance(e.value, bool) and e.value >= 0:
+            return str(e.value)
+        if src == "x.shape[1]":
+            return "D"
+        if isinstance(e, ast.BinOp) and isinstance(e.op, ast.Sub) and isinstance(e.right, ast.Constant) and isinstance(e.right.value, int) and e.right.value >= 0:
+            return f"({nat(e.left)} - {e.right.value})"
+        raise NotRecognised("index expression " + src)
+
+    def arr(e):
+        if isinstance(e, ast.Name) and e.id == "indexes":
+            return "indexes"
+        if isinstance(e, ast.List):
+            return "[" + ", ".join(nat(x) for x in e.elts) + "]"
+        if isinstance(e, ast.Call) and is_np(e.func, "array") and len(e.args) == 1 and isinstance(e.args[0], ast.List) \
+                and all(k.arg == "dtype" and ast.unparse(k.value) == "np.int64" for k in e.keywords):
+            return arr(e.args[0])
+        if isinstance(e, ast.Call) and is_np(e.func, "arange") and len(e.args) == 2 and is_const(e.args[0], 1) \
+                and all(k.arg == "dtype" and ast.unparse(k.value) == "np.int64" for k in e.keywords):
+            return f"(List.range' 1 ({nat(e.args[1])} - 1))"
+        if isinstance(e, ast.Call) and is_np(e.func, "kron") and len(e.args) == 2 and not e.keywords and ast.unparse(e.args[1]) == "np.array([1, 1])":
+            return f"(NpQ.kron11 {arr(e.args[0])})"
+        if isinstance(e, ast.Call) and is_np(e.func, "insert") and len(e.args) == 3 and not e.keywords and ast.unparse(e.args[1]) == "[0]":
+            return f"({arr(e.args[2])} ++ {arr(e.args[0])})"
+        if isinstance(e, ast.Call) and is_np(e.func, "append") and len(e.args) == 2 and not e.keywords:
+            return f"({arr(e.args[0])} ++ {arr(e.args[1])})"
+        raise NotRecognised("index array " + ast.unparse(e)[:60])
+
+    def branch(stmts):
+        out = []
+        for st in stmts:
+            if not (isinstance(st, ast.Assign) and len(st.targets) == 1 and isinstance(st.targets[0], ast.Name) and st.targets[0].id == "indexes"):
+                raise NotRecognised("statement " + ast.unparse(st)[:60])
+            out.append(f"    let indexes : List Nat := {arr(st.value)}")
+        if not out:
+            raise NotRecognised("empty branch")
+        return "\n".join(out) + "\n    indexes"
+
+    cls_txt = cfg["cls"] + "."
+    return ("/- GENERATED by harness/extract/np2lean.py from src/thefittest/" + cfg["file"] + f" ({cls_txt}{cfg['func']}, the column pairing) — do not edit -/\n"
+            + "import TFV.Model.NpQ\nnamespace TFV.Generated.Src\nopen TFV\n\n"
+            + f"def {cfg['name']} (D : Nat) : List Nat :=\n  if D = 2 then\n{branch(body[0].body)}\n  else\n{branch(body[0].orelse)}\n\nend TFV.Generated.Src\n")
+
+
 LEAN_TY = {"Q1": "Rat", "Mat": "Np.Mat", "Vec": "List Int", "OptVec": "Option (List Int)", "Nat": "Nat", "OptNat": "Option Nat"}
 
 
@@ -1133,6 +1194,8 @@ class TrQM(TrQ):
 def translate(repo: Path, cfg: dict) -> str:
     src = (repo / "src" / "thefittest" / cfg["file"]).read_text()
     fn = find_method(ast.parse(src), cfg["cls"], cfg["func"])
+    if cfg in IDX_KERNELS:
+        return translate_pair_indexes(fn, cfg)
     return (TrQM if cfg.get("branching") else TrQ if cfg in NPQ_KERNELS else Tr)(fn, cfg).render()
 
 
@@ -1140,7 +1203,7 @@ def main(repo="/repo", out="/verif/lean/TFV/Generated/Src", only=None):
     repo, out = Path(repo), Path(out)
     out.mkdir(parents=True, exist_ok=True)
     status = {}
-    for cfg in NP_KERNELS + NPQ_KERNELS:
+    for cfg in NP_KERNELS + NPQ_KERNELS + IDX_KERNELS:
         if only and cfg["name"] not in only:
             continue
         target = out / f"{cfg['name']}.lean"
